@@ -143,9 +143,42 @@ def run(ctx):
     # All: Some(ss.block_number) chosen when smaller than the current candidate
     alls = assigns.get('All', [])
     gtc = [c for c in P.closures_of(F, transitive=False) if any(x[2] in ('Gt', 'Lt') and x[5].lhs.strip() == '_0' for x in ctx.cmp_stmts(c))]
-    ctx.ob('C09.r2', F.name, 'all command rewinds to the minimum of the given block numbers', len(alls) >= 1 and len(gtc) >= 1,
+    is_flag_guard = lambda k, t: (k.endswith('Option::unwrap_or') or k.endswith('Option::map_or') or k.endswith('Option::is_none_or') or k.endswith('Option::map_or_else')) and t.dest and F.locals.get(int(t.dest.strip()[1:]), '') == 'bool'
+    # the same decision written inline (`match min { Some(lowest) if lowest <= n => {}, _ => min = Some(n) }`, `if let Some(cur)
+    # = min { if n < cur {..} }`): a primitive comparison between the payload of min_block_number and the new number, the
+    # assignment being reachable only on the outcome "new is lower (or equal)"
+    inline = []
+    if alls and not (gtc and P.call_sites(F, is_flag_guard)):
+        def _locals_back(op):
+            out, stack = set(), [int(x) for x in re.findall(r'_(\d+)', op)]
+            while stack:
+                l = stack.pop()
+                if l in out:
+                    continue
+                out.add(l)
+                for kind, bid, obj in du.defs.get(l, []):
+                    if kind == 'assign' and re.match(r"^(&(mut )?|move |copy |deref_copy )?\(?\*?[(_]", obj.rhs.strip()) and '(' not in obj.rhs.strip().split(' as ')[0].replace('(*', '').replace('((', ''):
+                        stack += [int(x) for x in re.findall(r'_(\d+)', obj.rhs)]
+                    elif kind == 'assign' and re.match(r"^(&(mut )?|move |copy |deref_copy )?[(*_\d). a-zA-Z:<>,]+$", obj.rhs.strip()):
+                        stack += [int(x) for x in re.findall(r'_(\d+)', obj.rhs)]
+            return out
+        mloc = int(mbn[1:])
+        for (cb, ci, op, a, bb, st) in ctx.cmp_stmts(F):
+            if op not in ('Lt', 'Le', 'Gt', 'Ge') or not (cb in excl['All'] or cb == arms['All']):
+                continue
+            a_cur, b_cur = mloc in _locals_back(a), mloc in _locals_back(bb)
+            if a_cur == b_cur:
+                continue
+            # cur OP new: assign on true for Gt/Ge, on false for Lt/Le; new OP cur: the other way round
+            acc = ('true' if op in ('Gt', 'Ge') else 'false') if a_cur else ('true' if op in ('Lt', 'Le') else 'false')
+            inline.append((cb, ci, acc))
+    ctx.ob('C09.r2', F.name, 'all command rewinds to the minimum of the given block numbers', len(alls) >= 1 and (len(gtc) >= 1 or len(inline) >= 1),
            at=alls[0][1].span if alls else None, assignments=len(alls))
-    if alls:
+    if alls and inline:
+        sinks_all = [(b, o.span, 'min_block_number = Some(ss.block_number)') for b, o in alls]
+        for cb, ci, acc in inline:
+            ctx.stmt_guard('C09.r2', F, [(cb, ci)], acc, sinks_all, unconditional=False, gname='current minimum compared with ss.block_number')
+    elif alls:
         sinks_all = [(b, o.span, 'min_block_number = Some(ss.block_number)') for b, o in alls]
         ctx.guard('C09.r2', F, lambda k, t: (k.endswith('Option::unwrap_or') or k.endswith('Option::map_or') or k.endswith('Option::is_none_or') or k.endswith('Option::map_or_else')) and t.dest and F.locals.get(int(t.dest.strip()[1:]), '') == 'bool', 'true', sinks_all,
                   unconditional=True, gname='min_block_number.map(|n| n > ss.block_number).unwrap_or(true)')
